@@ -2,6 +2,7 @@
  * that need %g formatting, duplicate, compare, minify, patch, delete) and compare every result with the value computed sequentially
  * before the threads start. exit 0 = all equal. Built twice: -fsanitize=thread (race report) and plain (result comparison). */
 #include <pthread.h>
+#include <time.h>
 #include <stdio.h>
 #include <stdlib.h>
 #include <string.h>
@@ -10,7 +11,7 @@
 #define NT 6
 #define ROUNDS 400
 typedef struct { int id; char doc[160]; char bad[64]; char expect_print[400]; long expect_end; char expect_min[160]; int fail; } job;
-static job jobs[NT];
+static job jobs[NT]; static pthread_barrier_t barrier; static volatile int stop_all;
 static void one(job *j, int check)
 {
     const char *end = 0; cJSON *t, *d, *b; char *s; char m[160];
@@ -27,7 +28,15 @@ static void one(job *j, int check)
     { cJSON *p = cJSONUtils_GeneratePatchesCaseSensitive(t, d); if (cJSON_GetArraySize(p) != 0) j->fail |= 32; cJSON_Delete(p); }
     cJSON_free(s); cJSON_Delete(d); cJSON_Delete(t);
 }
-static void *worker(void *a) { job *j = (job *)a; int r; for (r = 0; r < ROUNDS; r++) one(j, 1); return 0; }
+static void *worker(void *a)
+{
+    job *j = (job *)a; int r;
+    for (r = 0; r < ROUNDS; r++) one(j, 1);
+    /* tight phase: only failing parses that report their end position (the window in which a shared error record would be observed) */
+    { time_t t0; long q; pthread_barrier_wait(&barrier); t0 = time(0);
+      for (q = 0; q < 20000000L && !stop_all; q++) { const char *end = 0; cJSON *b = cJSON_ParseWithOpts(j->bad, &end, 1); if (b != 0 || end - j->bad != j->expect_end) { j->fail |= 64; stop_all = 1; break; } if ((q & 1023) == 0 && time(0) - t0 >= 3) break; } }
+    return 0;
+}
 int main(void)
 {
     pthread_t th[NT]; int i, bad = 0;
@@ -37,6 +46,7 @@ int main(void)
         sprintf(jobs[i].bad, "[%d, %d,%*s?", i, i, i + 1, "");
         one(&jobs[i], 0);
     }
+    pthread_barrier_init(&barrier, 0, NT);
     for (i = 0; i < NT; i++) pthread_create(&th[i], 0, worker, &jobs[i]);
     for (i = 0; i < NT; i++) pthread_join(th[i], 0);
     for (i = 0; i < NT; i++) if (jobs[i].fail) { printf("thread %d: results differ from the sequential run (mask %d)\n", i, jobs[i].fail); bad = 1; }
